@@ -66,7 +66,8 @@ def decide_returns(ctx, f, values: dict):
     try / except IndexError|KeyError around a constant-table lookup is decided by folding the lookup."""
     ex, s = summary(ctx, f)
     mapping = {('p', k): v for k, v in values.items()}
-    events = [e for e in s.events if e.kind in ('return', 'raise') and not e.ctx]
+    # a raise inside an expanded helper (`_refuse(msg)`) ends the caller too; returns of helpers do not
+    events = [e for e in s.events if (e.kind == 'return' and not e.ctx) or e.kind == 'raise']
     tables = {}
     for e in events:
         tables.update(_constant_tables(ctx, f, e.value))
@@ -101,7 +102,15 @@ def decide_returns(ctx, f, values: dict):
     return ('return', fold(e.value, mapping))
 
 
-_TYPES = {'builtins.int': int, 'builtins.float': float, 'builtins.str': str, 'builtins.bool': bool,
+class _NumpyScalar:       # no Python literal is an instance of a NumPy scalar type
+    pass
+
+
+_TYPES = {'numpy.integer': _NumpyScalar, 'numpy.floating': _NumpyScalar, 'numpy.number': _NumpyScalar,
+          'numpy.bool_': _NumpyScalar, 'numpy.int64': _NumpyScalar, 'numpy.float64': _NumpyScalar,
+          'numpy.generic': _NumpyScalar, 'numbers.Integral': int, 'numbers.Real': (int, float),
+          'numbers.Number': (int, float, complex),
+          'builtins.int': int, 'builtins.float': float, 'builtins.str': str, 'builtins.bool': bool,
           'builtins.list': list, 'builtins.tuple': tuple, 'builtins.dict': dict}
 
 
